@@ -25,6 +25,7 @@ import (
 	"os"
 	"path/filepath"
 	"strconv"
+	"sync/atomic"
 	"syscall"
 
 	"github.com/versity/versitygw/auth"
@@ -51,6 +52,9 @@ type tmpfile struct {
 var (
 	// TODO: make this configurable
 	defaultFilePerm uint32 = 0644
+
+	// linkSeq makes temporary link names unique within this process
+	linkSeq atomic.Uint64
 )
 
 func (p *Posix) openTmpFile(dir, bucket, obj string, size int64, acct auth.Account, dofalloc bool, forceNoTmpFile bool) (*tmpfile, error) {
@@ -167,9 +171,16 @@ func (tmp *tmpfile) link() error {
 	// from simultaneous uploads.
 	verifhook.At("link.begin", "bucket", tmp.bucket, "obj", tmp.objname)
 	objPath := filepath.Join(tmp.bucket, tmp.objname)
-	err := os.Remove(objPath)
-	if err != nil && !errors.Is(err, fs.ErrNotExist) {
-		return fmt.Errorf("remove stale path: %w", err)
+	// An existing object must never disappear while it is being replaced:
+	// the new file is moved over the old name with rename(2), which is
+	// atomic. Only a stale (empty) directory in the way has to be removed
+	// first, since a file cannot be renamed over a directory.
+	fi, err := os.Lstat(objPath)
+	if err == nil && fi.IsDir() {
+		err = os.Remove(objPath)
+		if err != nil && !errors.Is(err, fs.ErrNotExist) {
+			return fmt.Errorf("remove stale path: %w", err)
+		}
 	}
 	verifhook.At("link.removed", "path", objPath)
 
@@ -198,22 +209,18 @@ func (tmp *tmpfile) link() error {
 	defer dirf.Close()
 
 	verifhook.At("link.prelink", "path", objPath)
-	for {
-		err = unix.Linkat(int(procdir.Fd()), filepath.Base(tmp.f.Name()),
-			int(dirf.Fd()), filepath.Base(objPath), unix.AT_SYMLINK_FOLLOW)
-		if errors.Is(err, syscall.EEXIST) {
-			verifhook.At("link.eexist", "path", objPath)
-			err := os.Remove(objPath)
-			if err != nil && !errors.Is(err, fs.ErrNotExist) {
-				return fmt.Errorf("remove stale path: %w", err)
-			}
-			continue
-		}
-		if err != nil {
-			return fmt.Errorf("link tmpfile (fd %q as %q): %w",
-				filepath.Base(tmp.f.Name()), objPath, err)
-		}
-		break
+	err = unix.Linkat(int(procdir.Fd()), filepath.Base(tmp.f.Name()),
+		int(dirf.Fd()), filepath.Base(objPath), unix.AT_SYMLINK_FOLLOW)
+	if errors.Is(err, syscall.EEXIST) {
+		verifhook.At("link.eexist", "path", objPath)
+		// linkat cannot replace an existing name: give the file a
+		// temporary name in the bucket's tmp dir, then rename it
+		// over the object
+		err = tmp.linkAndRename(procdir, objPath)
+	}
+	if err != nil {
+		return fmt.Errorf("link tmpfile (fd %q as %q): %w",
+			filepath.Base(tmp.f.Name()), objPath, err)
 	}
 	verifhook.At("link.linked", "path", objPath)
 
@@ -223,6 +230,36 @@ func (tmp *tmpfile) link() error {
 	}
 
 	return nil
+}
+
+// linkAndRename links the unnamed file under a unique temporary name
+// and renames that over objPath, atomically replacing the old object.
+func (tmp *tmpfile) linkAndRename(procdir *os.File, objPath string) error {
+	tmpdir := filepath.Join(tmp.bucket, metaTmpDir)
+	err := backend.MkdirAll(tmpdir, tmp.uid, tmp.gid, tmp.needsChown, tmp.newDirPerm)
+	if err != nil {
+		return fmt.Errorf("make temp dir: %w", err)
+	}
+
+	for i := 0; i < 100; i++ {
+		tmpname := filepath.Join(tmpdir, fmt.Sprintf("%x.%d.%d.link",
+			sha256.Sum256([]byte(tmp.objname)), os.Getpid(), linkSeq.Add(1)))
+		err = unix.Linkat(int(procdir.Fd()), filepath.Base(tmp.f.Name()),
+			unix.AT_FDCWD, tmpname, unix.AT_SYMLINK_FOLLOW)
+		if errors.Is(err, syscall.EEXIST) {
+			continue
+		}
+		if err != nil {
+			return err
+		}
+		err = os.Rename(tmpname, objPath)
+		if err != nil {
+			os.Remove(tmpname)
+		}
+		return err
+	}
+
+	return err
 }
 
 func (tmp *tmpfile) fallbackLink() error {
